@@ -435,3 +435,42 @@ Definition refs_ok_b (d : doc) (items : list item) : bool :=
 Definition auto_ok (st : doc * table) (o : cop) : bool :=
   is_auto_op o && op_ok st o &&
   match o with OClaimInter _ _ items _ _ _ => refs_ok_b (fst st) items | _ => true end.
+
+(* ---- node-level assignment of a comment (an edit: x.raw_leading_comment = comment, append/insert of a comment
+   into a *_with_comments list).  The new tokens (the comment and its separators) enter the store behind `after`;
+   BlockComment.reattach sets the claimed flag of the attached comment; the slot references it. *)
+Inductive eop :=
+| EC (o : cop)
+| EAttach (s : slot) (pos : nat) (after : option Z) (new : list tok) (c : Z).
+
+Definition insert_after (d : doc) (after : option Z) (new : list tok) : option doc :=
+  match after with
+  | None => Some (new ++ d)
+  | Some a => match split_at a d with Some (p, x :: b) => Some (p ++ x :: new ++ b) | _ => None end
+  end.
+Definition insert_at (pos : nat) (c : Z) (l : list Z) : list Z := firstn pos l ++ [c] ++ skipn pos l.
+
+Definition estep (st : doc * table) (o : eop) : doc * table :=
+  match o with
+  | EC o => cstep st o
+  | EAttach s pos after new c =>
+    match insert_after (fst st) after (set_claimed c true new) with
+    | Some d' => (d', tset (snd st) s (insert_at pos c (tget (snd st) s)))
+    | None => st
+    end
+  end.
+
+(* the attached tokens are new to the store, the comment among them is `c` and nothing references it yet; a
+   leading/trailing slot must be empty (assignment over an existing comment removes that one first: not modelled) *)
+Definition attach_ok (st : doc * table) (s : slot) (new : list tok) (c : Z) : bool :=
+  nodup_zb (map t_id new)
+  && forallb (fun t => negb (existsb (Z.eqb (t_id t)) (map t_id (fst st)))) new
+  && forallb (fun t => negb (is_comment t) || (t_id t =? c)) new
+  && existsb (fun t => t_id t =? c) new
+  && (owners c (snd st) =? 0)%nat
+  && match s with SRep _ => true | _ => match tget (snd st) s with [] => true | _ => false end end.
+
+Definition eop_ok (st : doc * table) (o : eop) : bool :=
+  match o with EC o => op_ok st o | EAttach s _ _ new c => attach_ok st s new c end.
+Fixpoint ehist_ok (ops : list eop) (st : doc * table) : bool :=
+  match ops with [] => true | o :: r => eop_ok st o && ehist_ok r (estep st o) end.
